@@ -214,6 +214,15 @@ func (e *Engine) doCall(st *State, call *ssa.CallCommon, fnv Val, args []Val, re
 		if retTo != nil {
 			rt = retTo.Type()
 		}
+		if b.Name() == "close" && len(st.frames) == 1 {
+			// "atcall <close> before: ..." fires where a channel is closed (for a deferred close: when it runs)
+			e.hookArgs = args
+			var hi ssa.Instruction
+			if isDefer {
+				hi = e.curDeferInstr
+			}
+			e.runHooks(st, fr, hi, "<close>", "before")
+		}
 		setRes(e.builtin(st, b.Name(), args, call, rt, pos))
 		return
 	}
@@ -291,6 +300,9 @@ func (e *Engine) doCall(st *State, call *ssa.CallCommon, fnv Val, args []Val, re
 		e.inlinedFns[key] = true
 		nf := &Frame{fn: callee, regs: map[ssa.Value]Val{}, block: callee.Blocks[0], names: map[string]Val{}, nameAddr: map[string]bool{},
 			cut: map[*ssa.BasicBlock]bool{}, unrolled: map[*ssa.BasicBlock]int{}, retTo: retTo, contract: c, params: args}
+		if isDefer {
+			nf.deferSite = e.curDeferInstr
+		}
 		for i, p := range callee.Params {
 			if i < len(args) {
 				v := args[i]
@@ -1779,7 +1791,10 @@ func (e *Engine) hookSites(fn *ssa.Function, h *CallHook) int {
 			default:
 				continue
 			}
-			if _, isB := cc.Value.(*ssa.Builtin); isB && !cc.IsInvoke() {
+			if bi, isB := cc.Value.(*ssa.Builtin); isB && !cc.IsInvoke() {
+				if bi.Name() == "close" && h.Callee == "<close>" && h.Ord == 0 {
+					n++
+				}
 				continue
 			}
 			var key string
